@@ -79,7 +79,8 @@ class Obs(object):
 
 
 def _in_dir(path, d):
-    return os.path.abspath(path).startswith(os.path.abspath(d) + os.sep)
+    # compiled extension frames carry relative pseudo-paths (numpy/random/_common.pyx): not ours
+    return os.path.isabs(path) and os.path.abspath(path).startswith(os.path.abspath(d) + os.sep)
 
 
 def classify_exception(exc):
